@@ -576,7 +576,7 @@ pub fn format_code(
 			let value = f64::from_untyped(value.clone())?;
 			render_hexadecimal(
 				&mut tmp_out,
-				value,
+				value.floor(),
 				padding,
 				iprec,
 				clfags.alt,
